@@ -12,8 +12,11 @@
   E. hence `active = accepted − closed ≥ 0`, and `active = 0` when all connections are gone — over
      connections of every kind
   F. byte counters equal the bytes moved — a call that moved `n` bytes and failed counts `n`
+  G. every connection dialled for a CONNECT is closed on every way out of `handleConnectRequest` — also
+     when `Connect` hands it out TOGETHER WITH an error — so the dialer gauge returns to 0; a connection
+     without a closer keeps it up for ever (what "defer after the error check" does on exactly those paths)
 -/
-import FwdVerif.Lemmas.C13Close
+import FwdVerif.Lemmas.C13Dial
 
 namespace FwdVerif
 namespace C13
@@ -379,6 +382,166 @@ theorem c13_io_early_return_loses :
     let ops : List IoOp := [.write 5, .io .write 67108864 4194304 true, .io .readFrom 1000000 100000 true]
     ((Observer.mk 0 0).runOkOnly ops).tx = 5 ∧ bytesOut ops = 4294309 ∧
       ((Observer.mk 0 0).run ops).tx = 4294309 := by decide
+
+/-! ## G. Dialled connections of the CONNECT path -/
+
+/-- ownership after `Connect`: either the connection is handed to the caller — then nothing has closed it
+    yet — or no connection is handed out — then nothing was dialled, or the dial failed, or the code that
+    dialled (dialvia's `DialContextR`, x/net's SOCKS5 client) has closed it itself, once -/
+theorem c13_connect_hands_out_or_closes (cf : ConnectFn) (route : Route) (tt hs : Bool) :
+    let p := proxyConnect cf route tt hs
+    (p.1.conn = true → p.2 = [.opened]) ∧
+    (p.1.conn = false → p.2 = [] ∨ p.2 = [.dialError] ∨ p.2 = [.opened, .close]) := by
+  intro p
+  rcases proxyConnect_cases cf route tt hs with ⟨hc, hv⟩ | ⟨hc, hv⟩
+  · refine ⟨fun _ => hv, fun h => ?_⟩
+    rw [hc] at h; cases h
+  · refine ⟨fun h => ?_, fun _ => hv⟩
+    rw [hc] at h; cases h
+
+-- non-vacuity: a torn reply of an https upstream proxy (closed by dialvia), a refused SOCKS5 request
+-- (closed by x/net), a rejection by the upstream proxy (handed out with the 403)
+example : proxyConnect .unset (.viaHTTP true true .replyError) false false = (.failed, [.opened, .close]) ∧
+    proxyConnect .fallback (.viaSOCKS5 true .negotiationFails) true false = (.failed, [.opened, .close]) ∧
+    proxyConnect .unset (.viaHTTP false true (.reply 403)) false false = (⟨some 403, true, false⟩, [.opened]) := by
+  decide
+
+/-- `Connect` returns a LIVE connection together with an error in exactly two situations: the
+    `ConnectFunc` returned both, or a connection was obtained (directly, through an HTTP(S) proxy that
+    answered, through SOCKS5) and the terminate-TLS handshake with the target failed -/
+theorem c13_connect_conn_with_error_iff (cf : ConnectFn) (route : Route) (tt hs : Bool) :
+    ((proxyConnect cf route tt hs).1.conn = true ∧ (proxyConnect cf route tt hs).1.err = true) ↔
+      ((∃ r, cf = .result r ∧ r.conn = true ∧ r.err = true) ∨
+       ((∀ r, cf ≠ .result r) ∧ (connect route).1.conn = true ∧ tt = true ∧ hs = false)) := by
+  cases cf with
+  | result r =>
+    simp [proxyConnect]
+  | unset =>
+    rcases connect_cases route with ⟨hc, he, _⟩ | ⟨hc, he, _⟩
+    · cases tt <;> cases hs <;> simp [proxyConnect, hc, he]
+    · simp [proxyConnect, hc]
+  | fallback =>
+    rcases connect_cases route with ⟨hc, he, _⟩ | ⟨hc, he, _⟩
+    · cases tt <;> cases hs <;> simp [proxyConnect, hc, he]
+    · simp [proxyConnect, hc]
+
+-- non-vacuity: direct dial, through an http upstream proxy that answered 200, through SOCKS5 — each
+-- followed by a failed handshake —, and a ConnectFunc that returns both
+example : (proxyConnect .unset (.direct true) true false).1 = ⟨some 200, true, true⟩ ∧
+    (proxyConnect .fallback (.viaHTTP false true (.reply 200)) true false).1 = ⟨some 200, true, true⟩ ∧
+    (proxyConnect .unset (.viaSOCKS5 true .established) true false).1 = ⟨some 200, true, true⟩ ∧
+    (proxyConnect (.result ⟨none, true, true⟩) .proxyURLError false false).1 = ⟨none, true, true⟩ := by decide
+
+/-- EVERY way out of `handleConnectRequest` (any `ConnectFunc` behaviour, any route, any fault after the
+    dial, terminate-TLS or not, any continuation) in the code's order — defer registered before the error
+    check —: nothing dialled, or a failed dial, or one `opened` followed by one `Close` (two when the
+    tunnel was closed by force as well) and nothing else -/
+theorem c13_connect_exit_shapes (x : ConnectExit) :
+    x.devents .beforeErrorCheck = [] ∨ x.devents .beforeErrorCheck = [.dialError] ∨
+    x.devents .beforeErrorCheck = [.opened, .close] ∨ x.devents .beforeErrorCheck = [.opened, .close, .close] := by
+  have := devents_shape x
+  simpa [dialShapes] using this
+
+/-- hence every exit that dialled a connection has at least one `Close` call on it -/
+theorem c13_connect_exit_has_closer (x : ConnectExit) (h : DEv.opened ∈ x.devents .beforeErrorCheck) :
+    1 ≤ closesOf (x.devents .beforeErrorCheck) := by
+  rcases c13_connect_exit_shapes x with hv | hv | hv | hv <;> rw [hv] at h ⊢ <;> simp [closesOf] at h ⊢
+
+/-- … and, run on the dialer machine (the `sync.Once` of section D absorbs the second `Close`), every exit
+    leaves `active = 0`, every closer returned, `dialed` = 1 exactly when a connection was dialled and
+    `errors` = 1 exactly when the dial failed -/
+theorem c13_dialer_active_zero_every_exit (x : ConnectExit) :
+    let evs := x.devents .beforeErrorCheck
+    let s := LSt.init.run true (dialOps 0 evs)
+    s.active = 0 ∧ s.allGone = true ∧ s.allFinished = true ∧
+      s.accepted = (if DEv.opened ∈ evs then 1 else 0) ∧ s.errors = (if DEv.dialError ∈ evs then 1 else 0) := by
+  rcases c13_connect_exit_shapes x with hv | hv | hv | hv <;> simp only [hv] <;> decide
+
+-- non-vacuity: the (conn, err)-both-present exits, a tunnel closed by force, a failed dial
+example :
+    (ConnectExit.mk .unset (.direct true) true false (.tunnel .closed false)).devents .beforeErrorCheck = [.opened, .close] ∧
+    (ConnectExit.mk (.result ⟨some 200, true, true⟩) .proxyURLError false false (.passedOn false)).devents .beforeErrorCheck
+      = [.opened, .close] ∧
+    (ConnectExit.mk .fallback (.viaHTTP true true (.reply 200)) false false (.tunnel .closed true)).devents .beforeErrorCheck
+      = [.opened, .close, .close] ∧
+    (ConnectExit.mk .unset (.viaHTTP false true .ctxDone) true false (.passedOn false)).devents .beforeErrorCheck
+      = [.opened, .close] ∧
+    (ConnectExit.mk .unset (.direct false) true false (.passedOn false)).devents .beforeErrorCheck = [.dialError] := by decide
+
+/-- histories and schedules: after ANY sequence of dials, failed dials and `Close` steps — the exchanges'
+    operations interleaved in any way, any number of goroutines per connection — in which every dialled
+    connection has at least one closer (which `c13_connect_exit_has_closer` gives for every exit of the
+    CONNECT path) and every closer has returned, the gauge is 0 -/
+theorem c13_dialer_active_zero_histories (ops : List LOp) (hn : ∀ n, LOp.accept n ∈ ops → 1 ≤ n)
+    (hf : (LSt.init.run true ops).allFinished = true) : (LSt.init.run true ops).active = 0 := by
+  apply c13_active_returns_to_zero
+  have hp := npos_run LSt.init ops (by intro c hc; simp [LSt.init] at hc) hn
+  apply List.all_eq_true.mpr
+  intro c hc
+  have h1 := hp c hc
+  have h2 := List.all_eq_true.mp hf c hc
+  have h3 : c.doneCount = c.n := by simpa using h2
+  simp only [decide_eq_true_eq]
+  omega
+
+-- non-vacuity: three concurrent CONNECTs — a terminate-TLS failure, a tunnel closed by force (two Close
+-- calls racing), a torn reply — with a failed dial in between, their operations interleaved
+example :
+    let ops : List LOp := [.accept 1, .accept 2, .close 1 1, .acceptError, .accept 1, .close 0 0, .close 1 0,
+      .close 2 0, .close 1 1, .close 1 0, .close 2 0, .close 0 0]
+    (∀ n, LOp.accept n ∈ ops → 1 ≤ n) ∧ (LSt.init.run true ops).allFinished = true ∧
+      (LSt.init.run true ops).accepted = 3 ∧ (LSt.init.run true ops).errors = 1 := by
+  refine ⟨?_, by decide, by decide, by decide⟩
+  intro n hn
+  simp at hn
+  omega
+
+/-- the other direction: a dialled connection that NO path closes keeps the gauge at 1 or more for ever —
+    whatever else happens before and afterwards (other connections dialled and closed by any number of
+    goroutines in any interleaving) -/
+theorem c13_unclosed_connection_never_returns (before after : List LOp) :
+    1 ≤ (LSt.init.run true (before ++ LOp.accept 0 :: after)).active := by
+  rw [lrun_append]
+  have hi := linv_run _ before linv_init
+  have hi1 := linv_step _ (LOp.accept 0) hi
+  have ho : HasOrphan ((LSt.init.run true before).step true (LOp.accept 0)) :=
+    ⟨CloseSt.init 0, by simp [LSt.step], rfl⟩
+  show 1 ≤ (((LSt.init.run true before).step true (LOp.accept 0)).run true after).active
+  exact active_pos_of_orphan _ (linv_run _ after hi1) (orphan_run _ after ho)
+
+example : (LSt.init.run true ([.accept 1, .close 0 0] ++ LOp.accept 0 :: [.close 0 0, .accept 2, .close 2 0,
+    .close 2 1, .close 2 1, .close 2 0, .close 1 0, .close 1 0])).active = 1 := by decide
+
+/-- "check the error, then defer Close": the two orders make the same `Close` calls on every exit EXCEPT
+    those on which `Connect` handed out a connection together with an error -/
+theorem c13_defer_order_matters_iff (x : ConnectExit) :
+    x.devents .afterErrorCheck = x.devents .beforeErrorCheck ↔ ¬ (x.result.conn = true ∧ x.result.err = true) := by
+  unfold ConnectExit.devents
+  rw [List.append_right_inj]
+  cases hc : x.result.conn <;> cases he : x.result.err <;> simp [callerCloses, hc, he]
+
+/-- the witness: a CONNECT with `X-Martian-Terminate-Tls: true` to a target that accepts TCP and fails the
+    handshake. In the code's order the connection is closed; with the defer registered after the error
+    check it is dialled and never closed — `active` stays 1, no closer exists — while the request-level
+    accounting of the same exchange (`Path.connectDialFailure`) is untouched -/
+theorem c13_defer_after_error_check_leaks :
+    let x : ConnectExit := ⟨.unset, .direct true, true, false, .passedOn false⟩
+    x.result = ⟨some 200, true, true⟩ ∧
+    x.devents .beforeErrorCheck = [.opened, .close] ∧
+    (LSt.init.run true (dialOps 0 (x.devents .beforeErrorCheck))).active = 0 ∧
+    x.devents .afterErrorCheck = [.opened] ∧
+    (LSt.init.run true (dialOps 0 (x.devents .afterErrorCheck))).active = 1 ∧
+    (LSt.init.run true (dialOps 0 (x.devents .afterErrorCheck))).allGone = false ∧
+    (Path.connectDialFailure 502 false).events = (Path.connectDialFailure 502 false).expected := by
+  decide
+
+/-- the same on the other both-present exits: through an upstream proxy that answered 200, through
+    SOCKS5, and a `ConnectFunc` that returns a connection with an error -/
+theorem c13_defer_after_error_check_leaks_family :
+    (ConnectExit.mk .fallback (.viaHTTP true true (.reply 200)) true false (.passedOn false)).devents .afterErrorCheck = [.opened] ∧
+    (ConnectExit.mk .unset (.viaSOCKS5 true .established) true false (.passedOn false)).devents .afterErrorCheck = [.opened] ∧
+    (ConnectExit.mk (.result ⟨none, true, true⟩) (.direct true) false true (.passedOn false)).devents .afterErrorCheck = [.opened] := by
+  decide
 
 end C13
 end FwdVerif
